@@ -230,7 +230,7 @@ chk("C16",
     assumptions=["response writers respect the io.Writer contract"],
     nbatch={"quick": 16, "thorough": 16},
     timeout_s={"quick": 600, "thorough": 3600},
-    floors={"quick": {"session_scripts": 2500, "faulted_executions": 10000, "servehttp_executions": 3000, "zero_value_server_sessions": 40}},
+    floors={"quick": {"session_scripts": 2500, "faulted_executions": 10000, "servehttp_executions": 3000, "zero_value_server_sessions": 100}},
     )
 
 chk("C19",
